@@ -14,7 +14,7 @@ cp /verif/known_findings.json /verif/run $ST/verif/
 sed -i "s#path = \"/repo#path = \"$ST/repo#g" $ST/verif/harness/Cargo.toml $ST/verif/harness/*/Cargo.toml
 cd $ST/repo && git init -q 2>/dev/null; git add -A >/dev/null 2>&1; git -c user.email=a@b -c user.name=st commit -q -m base >/dev/null 2>&1
 cd $ST/verif
-for m in /verif/mutants/*${pat}*.patch; do
+for m in ${MUTDIR:-/verif/mutants}/*${pat}*.patch; do
   props=$(head -1 "$m" | sed 's/# props: //')
   if ! git -C $ST/repo apply "$m" 2>/dev/null; then echo "$(basename $m): DOES NOT APPLY" | tee -a $ST/results.txt; continue; fi
   for p in $props; do
